@@ -10,7 +10,7 @@
 //   small32 <init> <hex> / small64 ...  -> HAVE_SMALL implementation (crc32_small.c / crc64_small.c)
 //   smalltab32 / smalltab64             -> the 256 table entries those files generate at run time
 //   huge <fn> <size> <seed>             -> "<one call over the whole buffer> <same buffer in ~1 GiB pieces>" for
-//                                           fn = crc32pub|crc32arch|crc32gen|crc64pub|crc64arch|crc64gen|sha256|check1|check4:
+//                                           fn = crc32pub|crc32arch|crc32gen|crc64pub|crc64arch|crc64gen|check1|check4|sha256 (one call only):
 //                                           a (4 GiB + 16 KiB) MAP_NORESERVE mapping, 8 KiB of xorshift bytes at the
 //                                           start and at the end of the first <size> bytes, zeros in between
 #include "hproto.h"
@@ -95,16 +95,19 @@ static void do_huge(hp_line *l)
 		lzma_check_init(&a, id);
 		lzma_check_update(&a, id, m, size);
 		lzma_check_finish(&a, id);
-		lzma_check_init(&b, id);
-		for (size_t pos = 0; pos < size; ) {
-			size_t n = size - pos < HUGE_PIECE ? size - pos : HUGE_PIECE;
-			lzma_check_update(&b, id, m + pos, n);
-			pos += n;
-		}
-		lzma_check_finish(&b, id);
 		hp_put_hex(a.buffer.u8, lzma_check_size(id));
-		putchar(' ');
-		hp_put_hex(b.buffer.u8, lzma_check_size(id));
+		if (id != LZMA_CHECK_SHA256) {
+			// (SHA-256 over 4 GiB takes ~20 s per pass: one call only, compared with hashlib by the driver script)
+			lzma_check_init(&b, id);
+			for (size_t pos = 0; pos < size; ) {
+				size_t n = size - pos < HUGE_PIECE ? size - pos : HUGE_PIECE;
+				lzma_check_update(&b, id, m + pos, n);
+				pos += n;
+			}
+			lzma_check_finish(&b, id);
+			putchar(' ');
+			hp_put_hex(b.buffer.u8, lzma_check_size(id));
+		}
 		putchar('\n');
 	} else {
 		printf("bad-op\n");
